@@ -673,6 +673,10 @@ def cond_atoms(test, pol):
             out.add((unparse(left) + " is None", not pol))
             if not pol:
                 out.add((unparse(left), False))
+        elif isinstance(op, (ast.In, ast.NotIn)):
+            a, b = unparse(left), unparse(right)
+            out.add(("%s in %s" % (a, b), pol if isinstance(op, ast.In) else not pol))
+            out.add(("%s not in %s" % (a, b), (not pol) if isinstance(op, ast.In) else pol))
         else:
             # normalised comparison text with flipped forms
             # all equivalent textual forms: negated operator, swapped operands
